@@ -38,6 +38,11 @@ Theorem c17_lexer_layout_insensitive : forall f s ts, lex f s = Some ts -> lex (
 Proof. exact lex_normalise. Qed.
 Print Assumptions c17_lexer_layout_insensitive.
 
+Theorem c17_lexer_any_layout : forall l, Forall (fun tw => lexable (fst tw) /\ forallb is_gws (snd tw) = true) l ->
+  lex (S (length (render_with l))) (render_with l) = Some (map fst l).
+Proof. exact lex_any_layout. Qed.
+Print Assumptions c17_lexer_any_layout.
+
 (* the result is a map: one entry per key, and a later assignment to the same key wins *)
 Theorem c17_later_assignment_wins : forall l k, lookup_kv (to_map l) k = last_assigned l k None.
 Proof. exact to_map_last_wins. Qed.
